@@ -184,6 +184,14 @@ def _pairs(name: str, doc: str, items) -> str:
             + ", ".join(f"({_ls(a)}, {_ls(b)})" for a, b in items) + "]\n")
 
 
+def port_names():
+    return [k for k, _ in _dict_table(_module_value(parse(PORT), "PORT_LOOKUP"), "PORT_LOOKUP", _int_const)]
+
+
+def proto_names():
+    return [k for k, _ in _dict_table(_module_value(parse(PROTO), "PROTOCOL_LOOKUP"), "PROTOCOL_LOOKUP", _str_const)]
+
+
 def emit() -> str:
     pt, qt = parse(PORT), parse(PROTO)
     ports = _dict_table(_module_value(pt, "PORT_LOOKUP"), "PORT_LOOKUP", _int_const)
